@@ -414,7 +414,7 @@ class CaseLoop:
 
     def _on_exc(self, loop, ctx):
         exc = ctx.get('exception')
-        self.handler_calls.append((type(exc).__name__ if exc is not None else 'None', where(exc),
+        self.handler_calls.append((exc_name(exc) if exc is not None else 'None', where(exc),
                                    str(ctx.get('message'))[:120]))
 
     def spawn(self, coro):
@@ -441,7 +441,7 @@ class CaseLoop:
                 continue
             e = t.exception()
             if e is not None:
-                rec = (type(e).__name__, where(e), str(e)[:120])
+                rec = (exc_name(e), where(e), str(e)[:120])
                 if rec not in self.background_errors:
                     self.background_errors.append(rec)
         for h in self.handler_calls:
@@ -475,6 +475,20 @@ class CaseLoop:
             finally:
                 loop.close()
             self.collect()
+
+
+def exc_name(e) -> str:
+    """stable class label: builtin name; for library subclasses of a specific builtin (e.g. pygtrie.ShortKeyError ->
+    KeyError) the builtin base; 'struct.error' for struct.error"""
+    cls = e if isinstance(e, type) else type(e)
+    if cls.__module__ == 'builtins':
+        return cls.__name__
+    if cls.__module__ == 'struct' or cls is struct.error:
+        return 'struct.error'
+    for b in cls.__mro__[1:]:
+        if b.__module__ == 'builtins' and b not in (Exception, BaseException, object):
+            return b.__name__
+    return cls.__name__
 
 
 def where(exc):
